@@ -715,12 +715,24 @@ def r5(ctx):
     from ..util import arg as _arg
     rcalls = [c_ for c_ in walk_no_nested(f) if isinstance(c_, ast.Call) and last_name(dotted(c_.func) or '') == 'read_to_consensus_dict'
               and _arg(c_, 1, 'start') is not None and _arg(c_, 2, 'end') is not None]
+    starred = []
     if not rcalls:
-        raise AnalysisError('get_consensus_dictionaries: read_to_consensus_dict calls not found')
-    names = {a_.id for c_ in rcalls for a_ in (_arg(c_, 1, 'start'), _arg(c_, 2, 'end')) if isinstance(a_, ast.Name)}
-    rs = explore(f.body, mk_atoms({'dove_safe': False}), names=names, upto=rcalls[0])
-    vals = {tuple(sorted((k_, src(v_)) for k_, v_ in r['env'].items())) for r in rs}
-    ok = bool(rs) and all(all(src(v_) == 'None' for v_ in r['env'].values()) and len(r['env']) == len(names) for r in rs)
+        # the window handed over as one tuple: read_to_consensus_dict(read, *window, ...)
+        starred = [c_ for c_ in walk_no_nested(f) if isinstance(c_, ast.Call) and last_name(dotted(c_.func) or '') == 'read_to_consensus_dict' and len(c_.args) == 2
+                   and isinstance(c_.args[1], ast.Starred) and isinstance(c_.args[1].value, ast.Name)]
+        if not starred:
+            raise AnalysisError('get_consensus_dictionaries: read_to_consensus_dict calls not found')
+        rcalls = starred
+    if starred:
+        names = {c_.args[1].value.id for c_ in starred}
+        rs = explore(f.body, mk_atoms({'dove_safe': False, 'not dove_safe': True}), names=names, upto=rcalls[0])
+        vals = {tuple(sorted((k_, src(v_)) for k_, v_ in r['env'].items())) for r in rs}
+        ok = bool(rs) and all(all(src(v_).replace(' ', '') == '(None,None)' for v_ in r['env'].values()) and len(r['env']) == len(names) for r in rs)
+    else:
+        names = {a_.id for c_ in rcalls for a_ in (_arg(c_, 1, 'start'), _arg(c_, 2, 'end')) if isinstance(a_, ast.Name)}
+        rs = explore(f.body, mk_atoms({'dove_safe': False}), names=names, upto=rcalls[0])
+        vals = {tuple(sorted((k_, src(v_)) for k_, v_ in r['env'].items())) for r in rs}
+        ok = bool(rs) and all(all(src(v_) == 'None' for v_ in r['env'].values()) and len(r['env']) == len(names) for r in rs)
     raises = [r for r in explore(f.body, mk_atoms({'dove_safe': False, 'R1 is None': False, 'R2 is None': True})) if r['kind'] == 'raise']
     ctx.emit('C13-R5', ok and not raises, SEQUTILS, rcalls[0], 'with dove_safe=False the extraction window is (None, None) on every path and a missing mate is accepted' if ok and not raises else
              f'with dove_safe=False the window is {sorted(vals)[:2]} / a missing mate raises on {len(raises)} path(s): the default mode behaves like the dove-safe mode',
